@@ -32,7 +32,7 @@ DevNames == {"iwb_returns_input", "iwb_counts_escaped", "escaper_drops_apos",
              "nonstring_raw", "truncate_off_by_one", "uri_space_raw", "js_quote_raw",
              "nl2br_unescaped", "ns_attr_ignored", "deprecated_contextual_unspecified",
              "nonstring_input_raw", "placeholder_name_ignores_directives",
-             "log_leaves_escaping_off"}
+             "log_leaves_escaping_off", "arith_expr_unescaped", "kind_attr_turns_escaping_off"}
 
 (***************************************************************************)
 (* Directives: [name, args] with args a sequence of values.                *)
@@ -206,6 +206,18 @@ PrintText(escOn, chain, v) ==
              \/ ("nonstring_input_raw" \in DirDev /\ v.t \in {"int", "float", "bool", "null"}) IN
   IF escOn /\ ~Cancels(chain) /\ ~raw THEN AutoEscape(ToText(r)) ELSE ToText(r)
 
+\* The SHAPE of the printed expression (a variable, a concatenation, a ternary, a
+\* data reference, a function call, a literal ...) never influences escaping: the
+\* print command sees a value.  Labels only; the harness owns the Soy text.
+ExprShapes == {"var", "concat-right", "concat-left", "concat-split", "concat-number", "elvis", "ternary", "paren",
+               "map-dot", "list-index", "map-bracket", "injected", "global", "let-value", "fn-augmentMap", "fn-keys",
+               "eq-ternary", "list-literal", "and-ternary"}
+OperatorShapes == {"concat-right", "concat-left", "concat-split", "concat-number"}   \* top-level node is an operator
+PrintTextShape(escOn, chain, v, shape) ==
+  IF "arith_expr_unescaped" \in DirDev /\ chain = <<>> /\ shape \in OperatorShapes
+  THEN ToText(v)
+  ELSE PrintText(escOn, chain, v)
+
 (***************************************************************************)
 (* Effective autoescape mode.                                              *)
 (***************************************************************************)
@@ -222,6 +234,16 @@ EffectiveEscape(nsAttr0, tAttr0) ==
   IF tAttr # "unspecified" THEN tAttr # "false"
   ELSE IF "ns_attr_ignored" \in DirDev THEN TRUE
   ELSE nsAttr # "false"
+
+\* Other attributes the parser accepts on {template} (kind="...", private="...") and on
+\* {let}/{param} content blocks (kind="...") never influence escaping: only `autoescape` does.
+\* extra = [kind, private], "none" = attribute not written
+TemplateKinds == {"none", "html", "text", "js", "uri", "css", "attributes"}
+PrivateAttrs == {"none", "true", "false"}
+EffectiveEscapeX(nsAttr, tAttr, extra) ==
+  IF "kind_attr_turns_escaping_off" \in DirDev /\ extra.kind \notin {"none", "html"} /\ NormAttr(tAttr) = "unspecified"
+  THEN FALSE
+  ELSE EffectiveEscape(nsAttr, tAttr)
 
 \* the same function written as the table of the documentation
 EffectiveEscapeTable ==
